@@ -23,6 +23,9 @@ def rd(ctx, N, M=16, B=4, K=1, qN=None, tiers=("quick", "thorough"), labels=None
     r["params"]["SPLITBACK"] = 3
     if tN is not None:
         r["thorough"] = {"N": tN}
+    elif harness == "VerifRdOracle":
+        # thorough: the real compress/flate runs on the same bytes too (REF:* assertions)
+        r["thorough"] = {"S": 1}
     if extra:
         r["params"].update(extra)
     return r
@@ -36,16 +39,21 @@ def rdp(harness, ctx, N, picks, labels, covers=(), M=16, tiers=("quick", "thorou
     return r
 
 
+# thorough-only contexts: longer windows, more templates (15-bit codes, long distance codes, final-block placements)
+RD_CONTEXTS_T = [(0, 4), (1, 3), (2, 3), (13, 1), (15, 2), (31, 2), (32, 3), (36, 2), (44, 2), (59, 2)]
+
 CHECKS = {
     "C02": {
         "level": "model_checking",
-        "runs": [rd(c, n, labels=["C02:"], covers=["complete"] if c not in (17, 57, 60) else []) for c, n in RD_CONTEXTS_Q],
+        "runs": [rd(c, n, labels=["C02:", "REF:"], covers=["complete"] if c not in (3, 17, 57, 60) else []) for c, n in RD_CONTEXTS_Q] +
+                [rd(c, n, labels=["C02:", "REF:"], tiers=["thorough"]) for c, n in RD_CONTEXTS_T],
         "assumptions": ["oracle: reference inflater (harness/common/zz_verif_ref.go.tmpl, strict mode) cross-checked on every path against the real compress/flate executed symbolically on the same bytes (REF:* assertions)",
                         "window harness: stream = concrete context prefix ++ N symbolic bytes ++ suffix; output of the window bounded by M bytes (longer outputs are cut by Assume)"],
     },
     "C03": {
         "level": "model_checking",
         "runs": [rd(c, n, labels=["C03:"], covers=["truncated"] if c != 60 else []) for c, n in RD_CONTEXTS_Q] +
+                [rd(c, n, labels=["C03:"], tiers=["thorough"]) for c, n in RD_CONTEXTS_T] +
                 [rdp("VerifRdReset", 0, 2, {"olderr": oe, "wp": wp}, ["C13:"], ["ran"]) for (oe, wp) in [(0, 1), (1, 3)]],
         "assumptions": ["oracle: reference inflater strict + permissive; stdlib compress/flate executed symbolically for error kinds",
                         "every implicit Go panic (index, slice bounds, nil, negative shift, divide) and every access outside an allocation is a forked branch whose failing side is reported"],
@@ -196,3 +204,6 @@ for r in CHECKS["C17"]["runs"]:
     r["race"] = True
     r["sync_is_inconclusive"] = True
     r["validate_quick"] = 6
+
+CHECKS["C15"]["runs"] += [gz("VerifGzFail", {"with": w, "buf": b}, {"CHUNK": ch}, ["C15:"], ["header-fault", "body-fault"]) for (w, b, ch) in [(0, 0, 0), (1, 1, 0), (0, 1, 3), (1, 0, 5)]]
+CHECKS["C15"]["runs"] += [gz("VerifZlFail", {"with": w, "buf": b}, {}, ["C15:"], ["header-fault", "body-fault"], pkg=ZLIB) for (w, b) in [(0, 0), (1, 1), (0, 1), (1, 0)]]
